@@ -379,3 +379,60 @@ impl FBase {
     }
 }
 } // verus!
+
+verus! {
+impl PrimeSieve {
+    /// views of the private fields
+    pub closed spec fn sm(&self) -> Seq<u32> { self.smallprimes@ }
+    pub closed spec fn cnt(&self) -> int { self.block_count as int }
+    pub closed spec fn offs(&self) -> Seq<u32> { self.offsets@ }
+    /// offsets[j] is the position, relative to b * 2^16, of the first multiple of sm[j] in block number b
+    pub open spec fn offsets_for(&self, b: int) -> bool {
+        forall|j: int| 0 <= j < self.sm().len() ==> (#[trigger] self.offs()[j]) < self.sm()[j] && (b * 65536 + self.offs()[j]) % (self.sm()[j] as int) == 0
+    }
+    /// representation invariant: the table of primes below 2^16, and rolling offsets for the next block to sieve
+    /// (block 0 is the table itself, so the offsets are already those of block 1)
+    pub open spec fn wf(&self) -> bool {
+        &&& small_table(self.sm())
+        &&& self.offs().len() == self.sm().len()
+        &&& 0 <= self.cnt() <= 65536
+        &&& self.offsets_for(if self.cnt() == 0 { 1 } else { self.cnt() })
+    }
+}
+
+/// `a.fill(v)` (index_loops pre-normalisation): every element equals v afterwards (T-std)
+#[verifier::external_body]
+fn ol_fill(a: &mut [bool; 1 << 16], v: bool)
+    ensures forall|i: int| 0 <= i < 65536 ==> final(a)@[i] == v,
+{ a.fill(v); }
+
+/// length of a zip of two slices (index_loops pre-normalisation)
+fn ol_min_usize(a: usize, b: usize) -> (r: usize)
+    ensures r <= a, r <= b, r == a || r == b,
+{ if a < b { a } else { b } }
+} // verus!
+
+verus! {
+/// `assert_eq!(v.last(), Some(&x))`: returns only if the last element of v is x (checked at run time, panics otherwise)
+#[verifier::external_body]
+fn ol_assert_last(v: &Vec<u32>, x: u32)
+    ensures v@.len() > 0, v@[v@.len() - 1] == x,
+{ assert_eq!(v.last(), Some(&x)); }
+
+/// `smalls.iter().map(|&p| p - 1 - 65535 % p).collect()` (iterator pipeline with a closure: outside the Verus subset).
+/// The precondition is what the closure body needs (no division by zero, no underflow).
+#[verifier::external_body]
+fn ol_first_offsets(smalls: &Vec<u32>) -> (r: Vec<u32>)
+    requires forall|i: int| 0 <= i < smalls@.len() ==> #[trigger] smalls@[i] >= 1,
+    ensures r@.len() == smalls@.len(), forall|i: int| 0 <= i < r@.len() ==> #[trigger] r@[i] as int == smalls@[i] - 1 - 65535int % (smalls@[i] as int),
+{ smalls.iter().map(|&p| p - 1 - 65535 % p).collect() }
+
+/// 65521 is the largest prime below 2^16
+proof fn lemma_no_prime_65522_65535(q: nat)
+    requires 65521 < q < 65536
+    ensures !is_prime_dv(q)
+{
+    let d: nat = if q % 2 == 0 { 2 } else if q == 65523 || q == 65529 || q == 65535 { 3 } else if q == 65525 { 5 } else if q == 65527 { 7 } else if q == 65531 { 19 } else { 13 };
+    assert(divides(d, q));
+}
+} // verus!
